@@ -75,4 +75,6 @@ Definition run_all (c : list spec * list op) : list Z :=
   let '(sps, ops) := c in
   let base := run_enc v_fix sps ops in
   let other (v : variant) := let e := run_enc v sps ops in if zlist_eqb e base then [0] else 1 :: e in
-  base ++ other (mkVar false true) ++ other (mkVar true false) ++ other v_cur.
+  base ++ other (mkVar false true false) ++ other (mkVar true false false) ++ other v_cur
+  ++ other (mkVar true true true) ++ other (mkVar false true true) ++ other (mkVar true false true)
+  ++ other (mkVar false false true).
